@@ -35,6 +35,7 @@ pub fn check(o: &FOutcome) -> Checked {
     let mut dispatch: BTreeMap<u64, (u64, u64, bool)> = BTreeMap::new(); // id -> (ts, key, sent)
     let mut discarded: HashSet<u64> = HashSet::new();
     let mut disturb: Vec<u64> = vec![]; // stamps of resize / kill / drain / worker exits
+    let mut resizes: Vec<(u64, usize)> = vec![];
     let mut barriers: Vec<(u64, usize, usize, usize, usize)> = vec![];
     let mut first_exit_op: Option<u64> = None;
     for (ts, _ms, e) in &o.evs {
@@ -61,6 +62,9 @@ pub fn check(o: &FOutcome) -> Checked {
             FEv::Op(s) => {
                 if s.starts_with("resize") || s.starts_with("kill") || s.starts_with("set discard") {
                     disturb.push(*ts);
+                }
+                if let Some(n) = s.strip_prefix("resize ").and_then(|x| x.parse::<usize>().ok()) {
+                    resizes.push((*ts, n));
                 }
                 if (s == "stop" || s == "drain") && first_exit_op.is_none() {
                     first_exit_op = Some(*ts);
@@ -152,6 +156,22 @@ pub fn check(o: &FOutcome) -> Checked {
                         v.push(("outside-pool".into(), format!("job {} ran on worker {} although the pool has {pool} workers", r.id, r.wid), "outside-pool".into()));
                     }
                 }
+            }
+        }
+    }
+    // --- custom hash: once a resize request has been processed (a later query was answered) and no other resize follows
+    // before the job starts, the job runs on a worker inside the *requested* pool - also while workers beyond it are still
+    // finishing what they had (draining after a shrink)
+    if matches!(router, RouterKind::Custom(_)) {
+        for r in &runs {
+            let Some((dts, _, _)) = dispatch.get(&r.id) else { continue };
+            let Some(b) = barriers.iter().filter(|b| b.0 < *dts).last() else { continue };
+            if resizes.iter().any(|(ts, _)| *ts > b.0 && *ts < r.start) || first_exit_op.map_or(false, |x| x < r.start) {
+                continue;
+            }
+            let pool = resizes.iter().filter(|(ts, _)| *ts < b.0).last().map(|x| x.1).unwrap_or(o.cfg.pool);
+            if pool > 0 && r.wid >= pool {
+                v.push(("outside-pool".into(), format!("job {} (dispatched after the pool was set to {pool} and that request had been processed) ran on worker {}", r.id, r.wid), "outside-pool".into()));
             }
         }
     }
